@@ -77,7 +77,9 @@ pub fn near_misses() -> Vec<&'static str> {
         "ad", "addd", "add16", "add8", "add3", "add644", "neg16", "mov3", "movs", "ldxq", "ldx", "ldabs",
         "ldind", "ld", "st", "stx", "stq", "stxq", "lddww", "ldw", "lddh", "jmp", "j", "jeq64", "jeq16",
         "jsett", "jnz", "jz", "jsl", "calll", "cal", "callx1", "be", "le", "be8", "le8", "be128", "le24",
-        "exitt", "exi", "ret", "nop", "EXIT", "Add", "xadd", "stxxaddw", "tail_call", "ja32", "neg3",
+        "exitt", "exi", "ret", "nop", "EXIT", "Add", "ja32", "neg3",
+        // (not here: stxxaddw / stxxadddw / tail_call - names rbpf's own disassembler prints for
+        // supported opcodes; an assembler that learns them does not break C13)
         // very short names, names that are numbers, names ending in digits
         "a", "x", "r", "0", "1", "7", "9", "00", "16", "32", "64", "a1", "r1x", "x64", "e", "_", "mov_", "ld64",
     ]
